@@ -7,6 +7,8 @@ Theorems about `Vegeta.Model.DecoderFor`: the loop of `DecoderFor` over the read
 transcoding chains over an abstract codec family.
 -/
 import Vegeta.Model.DecoderFor
+import Vegeta.Proofs.Chain
+import Vegeta.Proofs.ChainCodecs
 import Vegeta.Extracted.Facts
 namespace Vegeta.Props.C08
 open Vegeta.Go Vegeta.Model.DecoderFor
@@ -365,75 +367,11 @@ theorem csv_json_first_bytes_differ (unixNano : Int) (rest body : Bytes) :
   · intro hh; subst hh; simp [isDigit] at hb
   · omega
 
-/-! ### transcoding chains -/
+/-! ### transcoding chains
 
-/-- two record sequences are equal record by record up to `eqv` (`Result.Equal`) -/
-inductive SeqEq {R : Type} (eqv : R → R → Prop) : List R → List R → Prop where
-  | nil : SeqEq eqv [] []
-  | cons {a b : R} {as bs : List R} : eqv a b → SeqEq eqv as bs → SeqEq eqv (a :: as) (b :: bs)
-
-theorem aux_seqEq_trans {R : Type} (eqv : R → R → Prop)
-    (htrans : ∀ a b c, eqv a b → eqv b c → eqv a c) :
-    ∀ xs ys zs : List R, SeqEq eqv xs ys → SeqEq eqv ys zs → SeqEq eqv xs zs := by
-  intro xs ys zs h1
-  induction h1 generalizing zs with
-  | nil => intro h2; exact h2
-  | cons hab _ ih =>
-    intro h2
-    cases h2 with
-    | cons hbc hrest => exact SeqEq.cons (htrans _ _ _ hab hbc) (ih _ hrest)
-
-theorem aux_seqEq_refl {R : Type} (eqv : R → R → Prop) (hrefl : ∀ a, eqv a a) :
-    ∀ xs : List R, SeqEq eqv xs xs := by
-  intro xs
-  induction xs with
-  | nil => exact SeqEq.nil
-  | cons a as ih => exact SeqEq.cons (hrefl a) ih
-
-/-- The per-format round-trip hypotheses (C07's theorems for CSV and JSON, the assumed value codec
-for gob): on the common domain `Dom`, decoding what format `f` encoded gives the sequence back up
-to `eqv`, and the result is again in the domain. -/
-structure RoundTrips {F R S : Type} (c : Codecs F R S) (eqv : R → R → Prop) (Dom : List R → Prop) : Prop where
-  refl  : ∀ a, eqv a a
-  trans : ∀ a b c, eqv a b → eqv b c → eqv a c
-  roundTrip : ∀ f rs, Dom rs → ∃ rs', c.dec f (c.enc f rs) = some rs' ∧ SeqEq eqv rs rs' ∧ Dom rs'
-
-theorem aux_chain {F R S : Type} (c : Codecs F R S) (eqv : R → R → Prop) (Dom : List R → Prop)
-    (h : RoundTrips c eqv Dom) (rs : List R) : ∀ (chain : List F) (f : F) (rs0 : List R),
-    Dom rs0 → SeqEq eqv rs rs0 →
-    ∃ fl s rs', c.runChain f (c.enc f rs0) chain = some (fl, s) ∧ fl = chain.getLast?.getD f ∧
-      c.dec fl s = some rs' ∧ SeqEq eqv rs rs' := by
-  intro chain
-  induction chain with
-  | nil =>
-    intro f rs0 hd he
-    obtain ⟨rs', h1, h2, _⟩ := h.roundTrip f rs0 hd
-    exact ⟨f, _, rs', rfl, rfl, h1, aux_seqEq_trans eqv h.trans _ _ _ he h2⟩
-  | cons f' rest ih =>
-    intro f rs0 hd he
-    obtain ⟨rs1, h1, h2, h3⟩ := h.roundTrip f rs0 hd
-    obtain ⟨fl, s, rs', r1, r2, r3, r4⟩ := ih f' rs1 h3 (aux_seqEq_trans eqv h.trans _ _ _ he h2)
-    refine ⟨fl, s, rs', ?_, ?_, r3, r4⟩
-    · simp only [Codecs.runChain, Codecs.transcode, h1, Option.map_some]
-      exact r1
-    · rw [r2]
-      cases rest with
-      | nil => simp
-      | cons a as =>
-        have : (a :: as).getLast? = some ((a :: as).getLast (by simp)) :=
-          List.getLast?_eq_some_getLast (by simp)
-        simp [List.getLast?_cons_cons, this]
-
-/-- **"Re-encoding a result file through any chain of formats with the encode command produces a
-stream that decodes to the original sequence."**  For every chain of formats of any length (not
-only ≤ 4) and every start format, given the per-format round trips: the chain runs through, and
-the final stream decodes — in the last format of the chain — to the original sequence up to
-`Result.Equal`. -/
-theorem chain_preserves {F R S : Type} (c : Codecs F R S) (eqv : R → R → Prop) (Dom : List R → Prop)
-    (h : RoundTrips c eqv Dom) (chain : List F) (f0 : F) (rs : List R) (hd : Dom rs) :
-    ∃ fl s rs', c.runChain f0 (c.enc f0 rs) chain = some (fl, s) ∧ fl = chain.getLast?.getD f0 ∧
-      c.dec fl s = some rs' ∧ SeqEq eqv rs rs' :=
-  aux_chain c eqv Dom h rs chain f0 rs hd (aux_seqEq_refl eqv h.refl rs)
+`SeqEq`, `RoundTrips`, `chain_preserves` (abstract codec family): Proofs/Chain.lean.
+`chain_preserves_csv_json` (the modelled CSV and JSON codecs of C07, no round-trip hypothesis
+left): Proofs/ChainCodecs.lean.  Both are in this namespace and covered by the axiom audit. -/
 
 /-! ### source facts (regenerated from /repo by every check run) -/
 
